@@ -182,3 +182,34 @@ Print Assumptions C08_guard_nonvacuous.
 Theorem C08_trace_is_run : forall md tops, fst (run_tops_acc (init md) [] tops) = run_tops (init md) tops.
 Proof. intros md tops. apply trace_final. Qed.
 Print Assumptions C08_trace_is_run.
+
+(* ---- termination of the reduced, fuel-based parser model (w02's Model/Parser.v, imported by Model/CycleParser.v);
+   fuel bounds the nesting of _parse_schema frames, running out of it stands for exhausting the interpreter stack ---- *)
+From PG Require Model.Parser Model.CycleParser Proofs.CycleParser.
+Module CP := PG.Model.CycleParser.
+Module PP := PG.Model.Parser.
+
+(* stage 1: acyclic core documents whose deepest chain fits the limit (w02's fidelity fragment) *)
+Theorem C08_parse_terminates_acyclic : forall md S rk,
+  PP.core_spec S = true -> PP.ranked_b rk S = true -> PP.depth_ok rk S md = true ->
+  PP.oof (PP.parse_doc md S) = false /\ PP.all_present S (PP.parse_doc md S) = true.
+Proof. exact Proofs.CycleParser.parse_terminates_acyclic. Qed.
+Print Assumptions C08_parse_terminates_acyclic.
+
+(* stage 2, BOUNDED SCOPE: every reference graph (all cycles included) over <= 3 named object schemas, limits
+   0..6, 20, 150: at most 8 nested frames, no fuel exhaustion, every declared name registered.
+   The statement for arbitrary reference graphs is NOT proved; it is kept, with the argument and what is missing,
+   at the end of Proofs/CycleParser.v. *)
+Theorem C08_parse_terminates_small_scope : forall k m md,
+  (1 <= k <= 3)%nat -> In m (CP.masks k) -> In md Proofs.CycleParser.limits ->
+  (CP.needed md (CP.gspec k m) <= 8)%nat
+  /\ PP.oof (PP.parse_doc md (CP.gspec k m)) = false
+  /\ PP.all_present (CP.gspec k m) (PP.parse_doc md (CP.gspec k m)) = true.
+Proof. exact Proofs.CycleParser.parse_terminates_small_scope. Qed.
+Print Assumptions C08_parse_terminates_small_scope.
+
+(* named frames alone can nest deeper than limit + 1 (fall-through, F08b): 7 frames at limit 4 *)
+Theorem C08_nesting_exceeds_limit :
+  CP.needed 4 (CP.gspec 3 484) = 7%nat /\ CP.needed 150 (CP.gspec 3 484) = 8%nat.
+Proof. exact Proofs.CycleParser.nesting_exceeds_limit. Qed.
+Print Assumptions C08_nesting_exceeds_limit.
